@@ -41,9 +41,15 @@ def hall_unit(res):
     return res
 
 
+def _inspect_unit():
+    from .c11 import inspect_selection_unit
+    return inspect_selection_unit
+
+
 def units(tier):
     return [
         Unit("C02/lemma/hall-lower-bound", hall_unit, "L", []),
+        Unit("C02/inspect/two-balancing-passes-iff-not-fixed", _inspect_unit(), "P", [("osaca/osaca.py", "inspect")], decisive=False),
         bounded_unit("C02/assign_optimal_throughput/exhaustive-3-port-family", "c01_optimal", [(AS, "ArchSemantics.assign_optimal_throughput"),
                      (AS, "ArchSemantics.get_throughput_sum")], extra_args=["c02"], timeout=900, decisive=True),
     ]
